@@ -16,11 +16,14 @@ TECHNIQUE = ("deterministic simulation: seeded redraw histories of urwid layouts
              "clear and z-index invariants")
 LEVEL_TEXT = ("A freshly booted library per world (the z-index allocator and the disguise state "
               "are process-global), terminal identity kitty / konsole / other, support detection "
-              "through the real query path. A seeded history of <= 25 operations (create / drop + "
+              "through the real query path. A seeded history of <= 22 (thorough: 40) operations (create / drop + "
               "collect image widgets, change layout among pile / columns / overlay / list box / "
               "frame / bare top-level widget / grid of equal-width cells (a quarter of the worlds "
               "are grids only, rows re-divided between redraws), return to an earlier layout, a "
-              "redraw interrupted by Ctrl-C that the application survives, scroll, move the overlay, resize, draw_screen, "
+              "redraw interrupted by Ctrl-C that the application survives (at most one between "
+              "two completed redraws, optionally followed by a redraw of the very same canvas or "
+              "of the canvas of the last completed redraw), a pop-up put exactly over one side "
+              "of an image view, scroll, move the overlay, resize, draw_screen, "
               "clear, clear_images(widgets, now), stop / start) drives a real UrwidImageScreen "
               "whose bytes are interpreted by the terminal model. After every redraw the graphics "
               "placements (cell rectangle, z-index, payload digest), image cells and text grid of "
